@@ -315,6 +315,9 @@ def run_c07(desc, stats):
         stats["digest"] = s.sim.digest()
         stats["counters"] = dict(s.sim.counters)
         stats["nevents"] = s.sim.nevents
+        if "SimStepLimit" in (a.exc_type, b.exc_type):
+            stats["uninformative"] = True
+            return out
         if a.exc is not None or b.exc is not None:
             if (a.exc is None) != (b.exc is None) or a.exc_type != b.exc_type:
                 out.append({"cls": [opt, "diverged", "outcome"],
@@ -396,7 +399,8 @@ def run_c08(desc, stats):
         stats["counters"] = dict(s.sim.counters)
         stats["nevents"] = s.sim.nevents
         stats["history_len"] = completed
-        if r1.injected or r2.injected:
+        if r1.injected or r2.injected or "SimStepLimit" in (r1.exc_type, r2.exc_type):
+            # (a call cut off by the harness's event / wall budget gives no verdict)
             stats["uninformative"] = True
             return out
         vs = []
@@ -565,6 +569,9 @@ def run_c12(desc, stats):
                 stats["nevents"] = s.sim.nevents
                 stats["fired"] = {k[12:]: v for k, v in s.sim.counters.items() if k.startswith("fault_fired:")}
     a, b = recs
+    if "SimStepLimit" in (a.exc_type, b.exc_type):
+        stats["uninformative"] = True
+        return out
     if a.exc is not None or b.exc is not None:
         if (a.exc is None) != (b.exc is None):
             out.append({"cls": [opt, "outcome"], "msg": f"max f: {a.exc_type or 'result'} ({a.exc_msg}); "
@@ -711,7 +718,9 @@ def run_c18(desc, stats):
                 stats["nevents"] = s2.sim.nevents
                 stats["counters"] = dict(s2.sim.counters)
     (ra, da), (rb, db) = res
-    if (ra.exc is None) != (rb.exc is None) or (ra.exc is not None and ra.exc_type != rb.exc_type):
+    if "SimStepLimit" in (ra.exc_type, rb.exc_type):
+        stats["uninformative"] = True
+    elif (ra.exc is None) != (rb.exc is None) or (ra.exc is not None and ra.exc_type != rb.exc_type):
         out.append({"cls": [opt, "run_differs"], "msg": f"set_config_parameters path: {ra.exc_type or 'result'}; "
                                                         f"constructor path: {rb.exc_type or 'result'}"})
     elif ra.exc is None:
